@@ -202,6 +202,23 @@ def parseLoad (s : String) : Q → Q → Q → Q :=
   let cs := (s.splitOn ",").filterMap parseRat
   fun p v t => cs.getD 0 0 + cs.getD 1 0 * p + cs.getD 2 0 * v + cs.getD 3 0 * t + cs.getD 4 0 * v * qabs v
 
+def parseRole : String → Option Role
+  | "master" => some .master | "slave" => some .slave | _ => none
+
+/-- `role,d|-,k,den|-,contact|-,mm,me` with contact = `E1~E2~d1~d2~b~sinA~cosA~cosB` -/
+def parseGearSim (w : String) : Option GearSim :=
+  match w.splitOn "," with
+  | [role, d, k, den, ct, mm, me] =>
+      let force : Option (Q × Q) := match parseRat d, parseRat k with
+        | some d, some k => some (d, k)
+        | _, _ => none
+      let contactP : Option (Q × Q × Q × Q × Q × Q × Q × Q) :=
+        match (ct.splitOn "~").filterMap parseRat with
+        | [a, b, c, d1, e, f, g, h] => some (a, b, c, d1, e, f, g, h)
+        | _ => none
+      some { role := parseRole role, force, bendingDen := parseRat den, contactP, mateModule := mm == "1", mateModulus := me == "1" }
+  | _ => none
+
 def parseCfg (kv : KV) : Cfg :=
   let links := parseLinks (kv.get "links")
   let m := parseMotor kv
@@ -210,7 +227,8 @@ def parseCfg (kv : KV) : Cfg :=
   { J0 := kv.q "J0", links, sl := kv.bool "sl", tolW := kv.q "tolW", tolT := kv.q "tolT",
     motorTorque := torque m, motorCurrent := current m, load := parseLoad (kv.get "load"),
     control := if rulesS == "-" || rulesS == "" then none
-               else some (pwmControl env ((splitNE rulesS ";").filterMap parseRule)) }
+               else some (pwmControl env ((splitNE rulesS ";").filterMap parseRule)),
+    gears := (splitNE (kv.get "gears") ";").filterMap parseGearSim }
 
 /-- `run,dt,n[,stop…]` | `reset` | `init,p,v` | `pwm,v` | `new` -/
 def parseOp (s : String) : Option Op :=
@@ -223,10 +241,14 @@ def parseOp (s : String) : Option Op :=
   | ["new"] => some .newSolver
   | _ => none
 
+def showOptList (l : List (Option Q)) : String :=
+  "[" ++ ",".intercalate (l.map fun | some x => approxQ x | none => "-") ++ "]"
+
 def showRec (r : Rec) : String :=
   s!"{approxQ r.time} {showList r.pos} {showList r.speed} {showList r.acc} {showList r.dtorque} " ++
   s!"{showList r.ltorque} {showList r.torque} {approxQ r.pwm} " ++
-  (match r.current with | some c => approxQ c | none => "-") ++ s!" {showBool r.locked}"
+  (match r.current with | some c => approxQ c | none => "-") ++ s!" {showBool r.locked} " ++
+  showOptList r.force ++ " " ++ showOptList r.bending ++ " " ++ showOptList r.contactSq
 
 /-- execute the ops one by one so that an error reports how far the history got -/
 def execReport (c : Cfg) : List Op → St → Nat → St × Option (Nat × Err)
@@ -319,8 +341,6 @@ def handleGrid (ws : List String) : String :=
 
 /-! ## gears -/
 
-def parseRole : String → Option Role
-  | "master" => some .master | "slave" => some .slave | _ => none
 
 def showEQ : Except Err Q → String
   | .ok v => "ok " ++ approxQ v
